@@ -14,10 +14,10 @@ META = dict(
         'collector, download failed, undecodable download) ends in the store fallback store.load_ta whose bytes are decoded; '
         'the loop in process_tal_task `continue`s on every failed URI and the no-anchor exit calls process_ta on no path. '
         'K3: update_ta has no caller besides load_ta.'),
-    decides='key binding + validate_ta on every path to process_ta; decode-before-store; store fallback on all failure paths',
+    decides='key binding + validate_ta on every path to process_ta; decode-before-store; store fallback on all failure paths; the stored copy survives cleanup while it decodes and has not expired',
     undecided='what Cert::decode / validate_ta accept (rpki crate)',
     trusted_base=['rustc MIR construction + callee resolution'],
-    rules=['K1 process_tal_task guards', 'K1 update_ta <= Ok(decode(same bytes))', 'K4 load_ta outcomes', 'K3 update_ta callers'],
+    rules=['K1 process_tal_task guards', 'K1 update_ta <= Ok(decode(same bytes))', 'K4 load_ta outcomes', 'K3 update_ta callers', 'K4 store::Run::cleanup_ta deletes only undecodable or expired copies (shared with C40)'],
 )
 
 OKL = {'Ok', 'pass', 'Some'}
